@@ -22,6 +22,7 @@ RULE = (
     "workers {1,2,4,8}, text and Parquet; reject: a required column removed or a label of 2/-2. Non-trivial = "
     ">=2 features and (a NaN column or >=1 optional column or non-default casing); distinct = distinct "
     "(n_features, identifier count, column-chunk size, NaN placement, format, casing) signature."
+    " A third of the reads name some of the present optional columns explicitly (filename/calcmass/expmass/rt keyword arguments) and give the path as str / Path / list / tuple."
 )
 ASSUMPTIONS = [
     "membership of charge* columns in the feature list is not judged (the code's charge handling is conditional and the statement does not pin it)",
@@ -208,8 +209,13 @@ def judge(res, ds, df, exp, meta, extra):
     return ok
 
 
-def _read(path, workers):
-    return core.import_mokapot().read_pin([path], max_workers=workers)[0]
+def _read(path, workers, explicit=None, form="list"):
+    """explicit: {keyword: column name} handed to read_pin for optional columns that are present (the same columns its
+    auto-detection finds); form: how the path is given (list of str / str / pathlib.Path / tuple)."""
+    from pathlib import Path
+
+    arg = {"list": [str(path)], "str": str(path), "path": Path(path), "tuple": (Path(path),)}[form]
+    return core.import_mokapot().read_pin(arg, max_workers=workers, **(explicit or {}))[0]
 
 
 def _one(res, rng, d, df, exp, meta, fmt, colchunk, rowchunk, workers, tag):
@@ -223,13 +229,23 @@ def _one(res, rng, d, df, exp, meta, fmt, colchunk, rowchunk, workers, tag):
     from vf.instruments import scheduler
 
     sched = scheduler.perturb(int(rng.integers(1 << 30)), max_sleep=0.002) if workers > 1 else contextlib.nullcontext()
+    # a third of the reads name some of the present optional columns explicitly and / or pass the path in another form
+    explicit, form = None, "list"
+    if rng.random() < 0.35:
+        kw = {"filename": "filename_column", "calcmass": "calcmass_column", "expmass": "expmass_column", "ret_time": "rt_column"}
+        present = sorted(exp["optional"])
+        if present:
+            chosen = [o for o in present if rng.random() < 0.6] or present[:1]
+            explicit = {kw[o]: exp["optional"][o] for o in chosen}
+        form = str(rng.choice(["list", "str", "path", "tuple"]))
+        res.count("reads_with_explicit_columns_or_other_path_form")
     with core.chunk_sizes(**sizes), sched as trace:
-        c = core.Call(_read, p, workers)
+        c = core.Call(_read, p, workers, explicit, form)
     if trace is not None:
         res.count("multiworker_reads")
         res.count("task_kinds_finished_out_of_order", trace.out_of_order())
         res.count("threads_seen", trace.threads())
-    extra = dict(fmt=fmt, col_chunk=colchunk or 19, row_chunk=rowchunk, workers=workers)
+    extra = dict(fmt=fmt, col_chunk=colchunk or 19, row_chunk=rowchunk, workers=workers, explicit=explicit, path_form=form)
     if not c.ok:
         res.violate("crash", c.sig, msg=c.info["msg"], meta=meta, **extra)
         return False
